@@ -70,7 +70,8 @@ def run(ctx):
     if multi:
         problem = MultiObjectiveProblem([False, True], lambda p: [float(p.v % 7), float(p.v % 5)])
     else:
-        problem = SingleObjectiveProblem(lambda p: float(p.v % 13), minimize=bool(H.draw(2)))
+        nan_some = H.draw(4) == 0  # a fitness function that is undefined (NaN) for some programs
+        problem = SingleObjectiveProblem(lambda p: float("nan") if (nan_some and p.v % 3 != 0) else float(p.v % 13), minimize=bool(H.draw(2)))
     evaluator = SequentialEvaluator()
     ctx.stat("mode:" + mode)
     if mode == "step":
